@@ -456,6 +456,40 @@ func checkFunctionCall(cs *clauseSet, l *Ledger) {
 	} else {
 		l.Violate("C04/S3-binding", "Function.Call#define(self)", "", "the activation no longer binds the function's own name: inside the body the name resolves through the closure instead (a rebound or aliased function recurses into the wrong function, an assignment to the name in the body escapes the call, `ধরি` of the name is no longer a redeclaration)")
 	}
+	// order of the bindings: the own name first, the parameters over it (a parameter spelled like the function must
+	// denote the argument), and all of them before the first statement of the body runs
+	order := Monitor{Init: "start", Step: func(s string, ev *Event) string {
+		switch ev.Op {
+		case "define":
+			if len(ev.Args) != 3 {
+				return s
+			}
+			if strings.HasSuffix(ev.Args[1], "Params[range].Lexeme") {
+				if s == "body" {
+					return "!a parameter is bound after a statement of the body has run"
+				}
+				return "params"
+			}
+			if strings.HasSuffix(ev.Args[1], "Name.Lexeme") {
+				if s == "params" {
+					return "!the function's own name is bound after the parameters: a parameter with the same name as the function is overwritten by the function value"
+				}
+				if s == "body" {
+					return "!the function's own name is bound after a statement of the body has run"
+				}
+			}
+		case "eval":
+			return "body"
+		}
+		return s
+	}}
+	ows := m.G.Run(order)
+	for _, w := range ows {
+		l.Violate("C04/S3-binding", "Function.Call#order", posOf(w), w.Msg, witnessDetail(w))
+	}
+	if len(ows) == 0 {
+		l.Discharge("C04/S3-binding", "Function.Call#order", "", "own name, then parameters, then the body", true)
+	}
 	// Arity = len(Params)
 	ar := cs.p.Func("interpreter.(*Function).Arity")
 	if ar == nil {
@@ -732,6 +766,7 @@ func checkClosureWiring(cs *clauseSet, l *Ledger, rule string) {
 func checkScopeWiring(cs *clauseSet, l *Ledger) {
 	rule := "C03/S2-scope-wiring"
 	n := 0
+	nNameOps := 0
 	for _, t := range cs.Order {
 		m := cs.Clauses[t]
 		evals := m.G.Events("eval")
@@ -750,6 +785,24 @@ func checkScopeWiring(cs *clauseSet, l *Ledger) {
 			if len(news) != 0 {
 				l.Violate(rule, m.Scenario+"#scope", news[0].Pos, short(t)+" opens a scope of its own: "+news[0].String())
 				continue
+			}
+		}
+		// every operation on names in this clause addresses the clause's own scope: a lookup that starts anywhere else
+		// (the globals, a remembered scope) skips the bindings in between
+		for _, op := range []string{"get", "getlocal", "assign", "define"} {
+			seenOp := map[string]bool{}
+			for _, e := range m.G.Events(op) {
+				if len(e.Args) == 0 || seenOp[e.Args[0]] {
+					continue
+				}
+				seenOp[e.Args[0]] = true
+				nNameOps++
+				key := m.Scenario + "#" + op + "@" + normName(e.Args[0])
+				if e.Args[0] != want {
+					l.Violate(rule, key, e.Pos, fmt.Sprintf("%s addresses the scope %s instead of the current one (%s): the bindings of the scopes in between are skipped", e.String(), e.Args[0], want))
+				} else {
+					l.Discharge(rule, key, e.Pos, "name operation on the current scope", false)
+				}
 			}
 		}
 		if len(evals) == 0 {
@@ -787,6 +840,9 @@ func checkScopeWiring(cs *clauseSet, l *Ledger) {
 		} else {
 			l.Discharge(rule, "Interpret#scope", news[0].Pos, "all top-level statements run in one fresh child of the globals", true)
 		}
+	}
+	if nNameOps < 4 {
+		l.Violate(rule+"/vacuity", "name operations", "", fmt.Sprintf("only %d name operations classified (expected >= 4: read, assignment, declaration test, declaration)", nNameOps))
 	}
 	if n < 30 {
 		l.Violate(rule+"/vacuity", "eval call sites", "", fmt.Sprintf("only %d child-evaluation sites classified (expected >= 30)", n))
